@@ -39,6 +39,12 @@ class _IfExp(ast.NodeTransformer):
     def visit_Assign(self, st):
         return self._split(st, st.value, lambda v: ast.Assign(targets=[_clone(t) for t in st.targets], value=v, type_comment=None))
 
+    def visit_AnnAssign(self, st):
+        # `x: T = a if c else b` inside a function: the annotation has no run-time effect there
+        if st.value is not None and isinstance(st.target, ast.Name) and isinstance(st.value, ast.IfExp) and st.simple:
+            return self._split(st, st.value, lambda v: ast.Assign(targets=[ast.Name(id=st.target.id, ctx=ast.Store())], value=v, type_comment=None))
+        return st
+
     def visit_Return(self, st):
         return self._split(st, st.value, lambda v: ast.Return(value=v))
 
@@ -77,6 +83,8 @@ def _always_returns(stmts):
         return True
     if isinstance(last, ast.If) and last.orelse:
         return _always_returns(last.body) and _always_returns(last.orelse)
+    if isinstance(last, ast.Try) and not last.finalbody:
+        return all(_always_returns(h.body) for h in last.handlers) and _always_returns(last.orelse if last.orelse else last.body)
     return False
 
 
@@ -111,6 +119,28 @@ def _ladder(stmts, rv):
                 out.append(ast.copy_location(ast.If(test=st.test, body=body, orelse=orelse), st))
                 return out
             return None   # a return on only some paths followed by more code: not a ladder
+        if isinstance(st, ast.Try) and any(isinstance(x, ast.Return) for x in ast.walk(st)):
+            # returns inside try / except arms: sound when nothing follows the try in this block (falling out of it ends the helper
+            # with None) or every arm returns, and there is no `finally` that returns
+            rest = stmts[i + 1:]
+            if any(isinstance(x, ast.Return) for f_ in st.finalbody for x in ast.walk(f_)):
+                return None
+            parts = [st.body] + [h.body for h in st.handlers] + ([st.orelse] if st.orelse else [])
+            # (with an else clause the try body itself falls through into it)
+            all_ret = all(_always_returns(b) for b in ([h.body for h in st.handlers] + ([st.orelse] if st.orelse else [st.body])))
+            if rest and not all_ret:
+                return None
+            nb = _ladder(st.body, rv)
+            nh = [_ladder(h.body, rv) for h in st.handlers]
+            no = _ladder(st.orelse, rv) if st.orelse else []
+            if nb is None or no is None or any(x is None for x in nh):
+                return None
+            new_try = ast.copy_location(ast.Try(body=nb, handlers=[ast.copy_location(ast.ExceptHandler(type=h.type, name=h.name, body=b_ or [ast.Pass()]), h)
+                                                                  for h, b_ in zip(st.handlers, nh)], orelse=no, finalbody=st.finalbody), st)
+            if not all_ret:
+                out.append(ast.copy_location(ast.Assign(targets=[ast.Name(id=rv, ctx=ast.Store())], value=ast.Constant(value=None), type_comment=None), st))
+            out.append(new_try)
+            return out
         if any(isinstance(x, ast.Return) for x in ast.walk(st)):
             return None
         out.append(st)
@@ -135,8 +165,8 @@ def inline_new_helpers(module_name, tree, known_functions):
             body = [s for s in helper.body if not (isinstance(s, ast.Expr) and isinstance(s.value, ast.Constant))]
             rets = [n for n in _own_nodes(helper) if isinstance(n, ast.Return)]
             if len(rets) > 1 or (rets and rets[0] is not body[-1]):
-                if all(r.value is None for r in rets) and not _always_returns(body):
-                    body = body + [ast.copy_location(ast.Return(value=None), body[-1])]
+                if not _always_returns(body):
+                    body = body + [ast.copy_location(ast.Return(value=None), body[-1])]     # falling off the end returns None
                 lad = _ladder([_clone(x) for x in body], "_r_" + name.strip("_"))
                 if lad is None or not _always_returns(body):
                     continue
@@ -256,7 +286,9 @@ def _inline_at(helper, body, rets, is_static, is_async, caller, st, call):
             if mapping is None:
                 return False
             # arguments must be simple (names / attributes / constants) so that substitution does not duplicate effects
-            if not all(isinstance(a, (ast.Name, ast.Attribute, ast.Constant)) for a in mapping.values()):
+            def _simple(a):
+                return isinstance(a, (ast.Name, ast.Attribute, ast.Constant)) or (isinstance(a, ast.Tuple) and all(_simple(x) for x in a.elts))
+            if not all(_simple(a) for a in mapping.values()):
                 return False
             hl = _local_names(helper)
             tgt_names = set()
@@ -643,7 +675,182 @@ class _UnGuard(ast.NodeTransformer):
     visit_AsyncFunctionDef = _fn
 
 
+class _Match(ast.NodeTransformer):
+    """`match` on constants / dotted names / None (with `|`, guards, a capture or wildcard default) lowered to the if/elif chain it
+    abbreviates; class, sequence and mapping patterns are left alone (the CFG builder then refuses the function)."""
+
+    def __init__(self):
+        self.k = 0
+
+    def _test(self, subj, pat):
+        if isinstance(pat, ast.MatchValue):
+            return ast.Compare(left=subj, ops=[ast.Eq()], comparators=[pat.value]), None
+        if isinstance(pat, ast.MatchSingleton):
+            return ast.Compare(left=subj, ops=[ast.Is()], comparators=[ast.Constant(value=pat.value)]), None
+        if isinstance(pat, ast.MatchOr):
+            parts = [self._test(subj, q) for q in pat.patterns]
+            if any(t is None or b is not None for t, b in parts):
+                return None, None
+            if all(isinstance(q, ast.MatchValue) for q in pat.patterns):
+                return ast.Compare(left=subj, ops=[ast.In()], comparators=[ast.Tuple(elts=[q.value for q in pat.patterns], ctx=ast.Load())]), None
+            return ast.BoolOp(op=ast.Or(), values=[t for t, _b in parts]), None
+        if isinstance(pat, ast.MatchAs) and pat.pattern is None:
+            return ast.Constant(value=True), pat.name
+        return None, None
+
+    def visit_Match(self, node):
+        self.generic_visit(node)
+        subj = node.subject
+        pre = []
+        if not isinstance(subj, (ast.Name, ast.Attribute)):
+            self.k += 1
+            nm = f"_match{self.k}"
+            pre.append(ast.copy_location(ast.Assign(targets=[ast.Name(id=nm, ctx=ast.Store())], value=subj, type_comment=None), node))
+            subj = ast.Name(id=nm, ctx=ast.Load())
+        arms = []
+        for case in node.cases:
+            t, bind = self._test(subj, case.pattern)
+            if t is None:
+                return node
+            body = list(case.body)
+            if bind:
+                body = [ast.copy_location(ast.Assign(targets=[ast.Name(id=bind, ctx=ast.Store())], value=subj, type_comment=None), case.body[0])] + body
+                if case.guard is not None:
+                    return node       # a guard may use the capture: keep it simple
+            if case.guard is not None:
+                t = case.guard if (isinstance(t, ast.Constant) and t.value is True) else ast.BoolOp(op=ast.And(), values=[t, case.guard])
+            arms.append((t, body))
+        chain = []
+        for t, body in reversed(arms):
+            if isinstance(t, ast.Constant) and t.value is True:
+                chain = body
+            else:
+                chain = [ast.copy_location(ast.If(test=t, body=body, orelse=chain), node)]
+        out = pre + chain
+        for x in out:
+            ast.fix_missing_locations(x)
+        return out if out else ast.copy_location(ast.Pass(), node)
+
+
+class _Walrus(ast.NodeTransformer):
+    """`if (x := E) <rest>:`  ->  `x = E` followed by `if x <rest>:` when the assignment expression is the first thing the test
+    evaluates (so hoisting it changes neither order nor condition of evaluation); the same for `return`/assignment/expression
+    statements whose first-evaluated sub-expression is a walrus.  Other positions are left alone."""
+
+    def _first(self, e):
+        while True:
+            if isinstance(e, ast.NamedExpr):
+                return e
+            if isinstance(e, ast.UnaryOp):
+                e = e.operand
+            elif isinstance(e, ast.BoolOp):
+                e = e.values[0]
+            elif isinstance(e, ast.Compare):
+                e = e.left
+            elif isinstance(e, ast.Attribute):
+                e = e.value
+            elif isinstance(e, ast.Call):
+                # looking up a plain (dotted) name has no effect: the first argument is what runs first
+                f_ = e.func
+                while isinstance(f_, ast.Attribute):
+                    f_ = f_.value
+                if isinstance(f_, ast.Name) and e.args and not isinstance(e.args[0], ast.Starred):
+                    e = e.args[0]
+                else:
+                    e = e.func
+            elif isinstance(e, ast.Subscript):
+                e = e.value
+            else:
+                return None
+
+    def _hoist(self, holder, field):
+        pre = []
+        while True:
+            w = self._first(getattr(holder, field))
+            if w is None or not isinstance(w.target, ast.Name):
+                break
+            pre.append(ast.copy_location(ast.Assign(targets=[ast.Name(id=w.target.id, ctx=ast.Store())], value=w.value, type_comment=None), holder))
+            repl = ast.copy_location(ast.Name(id=w.target.id, ctx=ast.Load()), w)
+
+            class R(ast.NodeTransformer):
+                def visit(self, n):
+                    if n is w:
+                        return repl
+                    return super().visit(n)
+            setattr(holder, field, R().visit(getattr(holder, field)))
+        return pre
+
+    def _block(self, stmts):
+        out = []
+        for st in stmts:
+            pre = []
+            if isinstance(st, ast.If):
+                pre = self._hoist(st, "test")
+            elif isinstance(st, (ast.Return, ast.Expr, ast.Assign)) and getattr(st, "value", None) is not None:
+                pre = self._hoist(st, "value")
+            for x in pre:
+                ast.fix_missing_locations(x)
+            out += pre + [st]
+        return out
+
+    def generic_visit(self, node):
+        super().generic_visit(node)
+        for f in ("body", "orelse", "finalbody"):
+            lst = getattr(node, f, None)
+            if isinstance(lst, list) and lst and isinstance(lst[0], ast.stmt):
+                if f == "orelse" and isinstance(node, ast.If) and len(lst) == 1 and isinstance(lst[0], ast.If) and self._first(lst[0].test) is not None:
+                    # an `elif (x := ...)`: the hoisted assignment belongs inside the else arm
+                    setattr(node, f, self._block(lst))
+                    continue
+                setattr(node, f, self._block(lst))
+        if isinstance(node, ast.Try):
+            for h in node.handlers:
+                h.body = self._block(h.body)
+        return node
+
+
+class _NextGen(ast.NodeTransformer):
+    """`x = next((ELT for T in IT if COND), DEFAULT)`  ->  `x = DEFAULT` + `for T in IT: if COND: x = ELT; break` (the search loop it
+    abbreviates; one generator, no await)."""
+
+    def _block(self, stmts):
+        out = []
+        for st in stmts:
+            v = st.value if isinstance(st, ast.Assign) and len(st.targets) == 1 and isinstance(st.targets[0], ast.Name) else None
+            if isinstance(v, ast.Call) and isinstance(v.func, ast.Name) and v.func.id == "next" and len(v.args) == 2 and not v.keywords \
+                    and isinstance(v.args[0], ast.GeneratorExp) and len(v.args[0].generators) == 1 and not v.args[0].generators[0].is_async:
+                g = v.args[0].generators[0]
+                nm = st.targets[0].id
+                init = ast.Assign(targets=[ast.Name(id=nm, ctx=ast.Store())], value=v.args[1], type_comment=None)
+                hit = [ast.Assign(targets=[ast.Name(id=nm, ctx=ast.Store())], value=v.args[0].elt, type_comment=None), ast.Break()]
+                body = hit
+                for cond in reversed(g.ifs):
+                    body = [ast.If(test=cond, body=body, orelse=[])]
+                loop = ast.For(target=g.target, iter=g.iter, body=body, orelse=[], type_comment=None)
+                for x in (init, loop):
+                    ast.copy_location(x, st)
+                    ast.fix_missing_locations(x)
+                out += [init, loop]
+            else:
+                out.append(st)
+        return out
+
+    def generic_visit(self, node):
+        super().generic_visit(node)
+        for f in ("body", "orelse", "finalbody"):
+            lst = getattr(node, f, None)
+            if isinstance(lst, list) and lst and isinstance(lst[0], ast.stmt):
+                setattr(node, f, self._block(lst))
+        if isinstance(node, ast.Try):
+            for h in node.handlers:
+                h.body = self._block(h.body)
+        return node
+
+
 def lower_ifexp(tree):
+    tree = _Match().visit(tree)
+    tree = _Walrus().visit(tree)
+    tree = _NextGen().visit(tree)
     tree = _IfExp().visit(tree)
     tree = _WhileBreak().visit(tree)
     tree = _NNF().visit(tree)
